@@ -123,9 +123,11 @@ func (evpool *Pool) Update(state sm.State, ev types.EvidenceList) {
 	// move committed evidence out from the pending pool and into the committed pool
 	evpool.markEvidenceAsCommitted(ev)
 
-	// prune pending evidence when it has expired. This also updates when the next evidence will expire
-	if evpool.Size() > 0 && state.LastBlockHeight > evpool.pruningHeight &&
-		state.LastBlockTime.After(evpool.pruningTime) {
+	// prune pending evidence when it has expired. Whether an item has expired depends
+	// on the height, the time and the evidence parameters of the new state: look
+	// after every block (the scan stops at the first item that has not expired).
+	// This also updates when the next evidence will expire.
+	if evpool.Size() > 0 {
 		evpool.pruningHeight, evpool.pruningTime = evpool.removeExpiredPendingEvidence()
 	}
 }
